@@ -39,6 +39,15 @@ macro_rules! resolution_error {
     };
 }
 
+/// The members of a blob or enum declaration in the order they are written. The parser keeps
+/// them in a HashMap; the first error found while going through them must not depend on its
+/// iteration order.
+fn in_source_order<T>(members: &HashMap<Identifier, T>) -> Vec<(&Identifier, &T)> {
+    let mut members: Vec<_> = members.iter().collect();
+    members.sort_by_key(|(ident, _)| (ident.span.line_start, ident.span.col_start));
+    members
+}
+
 /// A function literal, possibly wrapped in (redundant) parentheses.
 fn is_function_literal(expr: &ParserExpression) -> bool {
     match &expr.kind {
@@ -907,8 +916,8 @@ impl Resolver {
                     var,
                     span,
                     variables: variables.iter().map(|var| var.name.clone()).collect(),
-                    fields: fields
-                        .iter()
+                    fields: in_source_order(fields)
+                        .into_iter()
                         .map(|(field, ty)| Ok((field.name.clone(), (field.span, self.ty(ty)?))))
                         .collect::<ResolveResult<_>>()?,
                     external: *external,
@@ -921,8 +930,8 @@ impl Resolver {
                     var,
                     span,
                     variables: variables.iter().map(|var| var.name.clone()).collect(),
-                    variants: variants
-                        .iter()
+                    variants: in_source_order(variants)
+                        .into_iter()
                         .map(|(var, ty)| Ok((var.name.clone(), (var.span, self.ty(ty)?))))
                         .collect::<ResolveResult<_>>()?,
                 })
